@@ -8,10 +8,12 @@ LEVEL = "model_checking"
 CTX = {"none": None, "A": {"v": "A"}, "B": {"v": "B"}}
 
 
-def call(name, shallow):
+def call(name, shallow, direct=False):
     import wf.tasks as T
 
-    t = T.cmid_s if shallow else T.cmid
+    # direct: the context is read by an expression-valued default argument of the called task itself, so that sibling calls
+    # under ONE parent job differ only in their context
+    t = T.cleaf if direct else (T.cmid_s if shallow else T.cmid)
     return t(1) if CTX[name] is None else t.update_context(CTX[name])(1)
 
 
@@ -30,6 +32,9 @@ def cases(tier):
                 out.append({"ctxs": list(combo), "mode": "seq", "shallow": shallow})
                 out.append({"ctxs": list(combo), "mode": "concurrent", "shallow": shallow})
                 out.append({"ctxs": list(combo), "mode": "split", "shallow": shallow})
+                if not shallow:
+                    out.append({"ctxs": list(combo), "mode": "seq", "shallow": False, "direct": True})
+                    out.append({"ctxs": list(combo), "mode": "concurrent", "shallow": False, "direct": True})
     if tier == "quick":
         for combo in [("A", "none", "A"), ("none", "A", "none"), ("A", "B", "none")]:
             for shallow in (False, True):
@@ -47,15 +52,15 @@ def scenario(case, prefix):
     try:
         outs = []
         if case["mode"] == "seq":
-            outs.append(env.run(seq([call(c, case["shallow"]) for c in case["ctxs"]])))
+            outs.append(env.run(seq([call(c, case["shallow"], case.get("direct", False)) for c in case["ctxs"]])))
             got = outs[0][1] if outs[0][0] == "ok" else None
         elif case["mode"] == "concurrent":
-            outs.append(env.run([call(c, case["shallow"]) for c in case["ctxs"]]))
+            outs.append(env.run([call(c, case["shallow"], case.get("direct", False)) for c in case["ctxs"]]))
             got = outs[0][1] if outs[0][0] == "ok" else None
         else:
             got = []
             for c in case["ctxs"]:
-                o = env.run(call(c, case["shallow"]))
+                o = env.run(call(c, case["shallow"], case.get("direct", False)))
                 outs.append(o)
                 got.append(o[1] if o[0] == "ok" else None)
         return env.ctl, {"outs": [(o[0], repr(o[1:])) for o in outs], "got": [tuple(g) if g is not None else None for g in (got or [])]}
@@ -76,7 +81,7 @@ def explore_case(arg):
         if res["got"] != want:
             i = next((k for k, (g, w) in enumerate(zip(res["got"], want)) if g != w), 0)
             prev = case["ctxs"][:i]
-            sig = f"shared-across-contexts:{case['mode']}:{'shallow' if case['shallow'] else 'full'}:call={case['ctxs'][i]}:after={'+'.join(prev) or '-'}"
+            sig = f"shared-across-contexts:{'direct:' if case.get('direct') else ''}{case['mode']}:{'shallow' if case['shallow'] else 'full'}:call={case['ctxs'][i]}:after={'+'.join(prev) or '-'}"
             viol.append((sig, {"case": case, "choices": choices},
                          f"{case}: call #{i} with context '{case['ctxs'][i]}' returned {res['got'][i] if i < len(res['got']) else res}, expected {want[i]} (all: {res['got']})"))
 
